@@ -165,7 +165,7 @@ pub fn execute<S: Store>(data: &mut S, start: usize, input: usize, opts: &RunOpt
         }
         if opts.trace {
             let (regs, vals, frames) = if st == "panic" { (vec![], vec![], vec![]) } else { snapshot(data) };
-            let calls = data.host().map(|h| h.log.len()).unwrap_or(0);
+            let calls = data.host().map(|h| h.log.iter().filter(|e| !e.contains("\"cb\":\"defer\"")).count()).unwrap_or(0);
             events.push(json!({"pc": pc, "status": st, "next": data.get_instruction_cursor(), "regs": regs, "vals": vals, "frames": frames, "calls": calls}));
         }
         if st != "run" {
